@@ -53,6 +53,15 @@ class DevApp(ApplicationIOController, WhoIsIAmServices, WhoHasIHaveServices, Rea
     def do_UnconfirmedPrivateTransferRequest(self, apdu):
         pass
 
+    feed_cache = True
+
+    def do_IAmRequest(self, apdu):
+        # the stock handler validates the parameters and leaves the rest to the application ("update the device info cache
+        # if it is [looking for this device]"): this application remembers what its peers announce
+        WhoIsIAmServices.do_IAmRequest(self, apdu)
+        if self.feed_cache:
+            self.deviceInfoCache.iam_device_info(apdu)
+
 
 # ------------------------------------------------------------------ valid frames (harness encoder)
 
@@ -180,6 +189,7 @@ class Run:
                            numberOfApduRetries=1, apduTimeout=2000, apduSegmentTimeout=1000)
         device._dcc_password = PASSWORD
         app = DevApp(device)
+        app.feed_cache = desc.get('feed_cache', True)
         self.app = app
         self.av1 = AnalogValueObject(objectIdentifier=('analogValue', 1), objectName='av1', presentValue=1.0,
                                      statusFlags=[0, 0, 0, 0], covIncrement=0.5, description='one')
@@ -441,7 +451,9 @@ def execute_batch(desc):
 
 
 def execute_desc(desc):
-    if 'frames' in desc:
+    if desc.get('dcc'):
+        run, v = execute_dcc(desc)
+    elif 'frames' in desc:
         run, v = execute_batch(desc)
     else:
         run, v = execute_single(desc)
@@ -498,6 +510,8 @@ def gen_batch(seed, idx):
             if intact:
                 inv += 1
                 fr[4 + 2 + 2] = inv        # BVLL(4) NPDU(2) APDU[2] = invoke id
+                if rng.random() < 0.35:
+                    fr[4 + 2] |= 0x02      # segmented-response-accepted
             frames.append({'frame': bytes(fr).hex(), 'label': 'valid:' + name, 'valid': True, 'gap': gap})
         else:
             g, lab = random_garbage(rng)
@@ -508,7 +522,7 @@ def gen_batch(seed, idx):
             if intact and service == 17:
                 continue
             frames.append({'frame': g.hex(), 'label': lab, 'gap': gap})
-    return {'prop': 'C10', 'seed': H(seed, 'C10run', idx) & 0x7fffffff, 'frames': frames}
+    return {'prop': 'C10', 'seed': H(seed, 'C10run', idx) & 0x7fffffff, 'frames': frames, 'feed_cache': rng.random() < 0.8}
 
 
 def gen_conv(seed, idx):
@@ -572,6 +586,96 @@ def gen_conv(seed, idx):
     return {'prop': 'C10', 'seed': H(seed, 'C10conv', idx) & 0x7fffffff, 'frames': frames, 'frame_cap': 8000, 'conv': True}
 
 
+def dcc_frame(invoke, enable_disable, minutes=None, password=PASSWORD):
+    pw = password.encode() if isinstance(password, str) else password
+    data = (wire.ctx_uint(0, minutes) if minutes is not None else b'') + wire.ctx_enum(1, enable_disable)
+    if pw is not None:
+        data += wire._tag_head(2, 1, len(pw) + 1) + b'\x00' + pw
+    return frame(wire.conf_req(invoke, 17, data))
+
+
+def gen_dcc(seed, idx):
+    """A valid DeviceCommunicationControl 'disable' for one minute, then damaged DeviceCommunicationControl frames (wrong /
+    cut / missing password, undefined values, truncations) and other garbage while the device is silent; when the minute is
+    over the device must be talking again."""
+    rng = rng_for(seed, 'C10dcc', idx)
+    frames = [{'frame': dcc_frame(60, 1, minutes=1).hex(), 'label': 'valid:DCC-disable-1min', 'gap': 0}]
+    for k in range(rng.randint(1, 6)):
+        u = rng.random()
+        if u < 0.6:
+            base = dcc_frame(61 + k, rng.choice([0, 0, 1]), minutes=rng.choice([None, None, 1, 2]))
+            muts = mutations(base, False)
+            lab, m = muts[rng.randrange(len(muts))]
+            if rng.random() < 0.6:
+                m = fix_bvll_len(m)
+            frames.append({'frame': m.hex(), 'label': 'mut:DCC:' + lab, 'gap': rng.choice([0, 0.5, 3.0, 11.0])})
+        elif u < 0.8:
+            frames.append({'frame': dcc_frame(61 + k, rng.choice([0, 1]), minutes=rng.choice([None, 1]), password=rng.choice(['xyzzx', 'x', '', None])).hex(),
+                           'label': 'DCC:wrong-password', 'gap': rng.choice([0, 0.5, 3.0])})
+        else:
+            g, lab = random_garbage(rng)
+            frames.append({'frame': g.hex(), 'label': lab, 'gap': rng.choice([0, 0.5, 3.0])})
+    return {'prop': 'C10', 'seed': H(seed, 'C10dcc', idx) & 0x7fffffff, 'dcc': True, 'frames': frames}
+
+
+def execute_dcc(desc):
+    run = Run(desc)
+    w = run.w
+    out = []
+    t_dis = None
+    unknown = False
+    for k, item in enumerate(desc['frames']):
+        fr = bytes.fromhex(item['frame'])
+        if item.get('gap'):
+            run.quiesce(item['gap'])
+            target = run._t_last + item['gap']
+            if clock.now < target:
+                clock.now = target
+        mark = w.seq
+        run.send(fr, item.get('label', ''))
+        run.quiesce(0.2)
+        # did the device acknowledge a DeviceCommunicationControl request?
+        acked = False
+        for (seq, t, octets) in run.rx:
+            if seq > mark:
+                v = wire.decode_bvll(octets)
+                n = wire.decode_npdu(v['npdu']) if v and 'npdu' in v else None
+                a = wire.decode_apdu(n['apdu']) if n and not n['netmsg'] else None
+                if a is not None and a['type'] == wire.T_SACK and a.get('service') == 17:
+                    acked = True
+        if k == 0:
+            if not acked:
+                out.append({'clause': 'C10.a', 'detail': 'the valid timed DeviceCommunicationControl disable was not acknowledged', 'sigkey': 'dcc-not-acked', 'sig': {'kind': 'dcc-not-acked'}})
+                run.finish()
+                return run, out
+            t_dis = w.now
+        elif acked:
+            # a damaged frame that is still a VALID request changed the state legitimately (enable, another disable ...)
+            unknown = True
+            w.probe('dcc_episode_state_changed_by_valid_mutant')
+    # let the minute run out
+    run.quiesce(75.0)
+    target = t_dis + 66.0
+    if clock.now < w.t0 + target:
+        clock.now = w.t0 + target
+        run.quiesce(1.0)
+    errs = loop_errors()
+    if not unknown:
+        state = run.stack.smap.dccEnableDisable
+        if state != 'enable':
+            out.append({'clause': 'C10.d', 'detail': 'the device was told to be silent for ONE minute; %.0f s later, after %d damaged datagrams none of which it acknowledged, its '
+                        'communication state is still %r; swallowed exceptions %r' % (w.now - t_dis, len(desc['frames']) - 1, state, errs),
+                        'sigkey': 'dcc-timed-disable-never-ends', 'sig': {'kind': 'dcc-timed-disable-never-ends'}})
+        else:
+            follow_up(run, out, {})
+    r = run.residue()
+    if r:
+        out.append({'clause': 'C10.b', 'detail': 'after the episode the device holds %r; swallowed exceptions %r' % (r, errs),
+                    'sigkey': 'residue:' + ','.join(sorted(r)), 'sig': {'kind': 'residue', 'what': sorted(r), 'errors': errs}})
+    run.finish()
+    return run, out
+
+
 def single_descs(name, full):
     fr = VALID[name]
     out = [{'prop': 'C10', 'seed': 0, 'service': name, 'label': 'identity', 'frame': fr.hex()}]
@@ -611,6 +715,10 @@ def run_unit(unit):
             if i % unit['mod'] == unit['rem']:
                 _account(agg, d, execute_desc(d))
         agg.cells += 1
+    elif unit['kind'] == 'dcc':
+        for idx in range(unit['start'], unit['start'] + unit['count']):
+            d = gen_dcc(unit['seed'], idx)
+            _account(agg, d, execute_desc(d))
     elif unit['kind'] == 'conv':
         for idx in range(unit['start'], unit['start'] + unit['count']):
             d = gen_conv(unit['seed'], idx)
@@ -638,6 +746,8 @@ def units(tier, seed):
         us.append({'kind': 'batch', 'seed': seed, 'start': k * 25, 'count': 25})
         if k % 2 == 0:
             us.append({'kind': 'conv', 'seed': seed, 'start': (k // 2) * 20, 'count': 20})
+        if k % 8 == 1:
+            us.append({'kind': 'dcc', 'seed': seed, 'start': (k // 8) * 20, 'count': 20})
     return us
 
 
